@@ -25,4 +25,12 @@ theorem c05_empty_cache (p0 : Policy) (h0 : p0.window = [] ∧ p0.probation = []
   ⟨⟨Reach.init p0 h0.1 h0.2.1 h0.2.2.1 h0.2.2.2, (fun _ hx => by cases hx), List.nodup_nil,
      (fun id => ⟨(fun hx => by cases hx), (fun hx => by cases hx.1)⟩)⟩, Impl.Wheel.wj_init⟩
 
+/-- C05 / C13: **after every history of insertions (with eviction), removals and expirations from the empty cache**: a node is
+    mapped exactly while it is introduced and alive, the size policy is reachable and quiescent, and every mapped node is
+    scheduled in the timer wheel with its deadline -/
+theorem c05_both_agreements_every_history (p0 : Policy)
+    (h0 : p0.window = [] ∧ p0.probation = [] ∧ p0.prot = [] ∧ p0.weightedSize = 0) (s : CState)
+    (r : CRun { S := [], p := p0, w := {}, live := [] } s) : CInv s :=
+  crun_inv r (c05_empty_cache p0 h0)
+
 end OtterVerif.Props.C05All
